@@ -22,6 +22,8 @@ def main():
     for kind, cfgs in session.WRITER_CONFIGS.items():
         for opts in cfgs:
             res["writes"][session.cfg_key(kind, opts)] = session.write_digest(kind, opts, copy.deepcopy(cs))
+            for args in session.WRITE_ARGS.get(kind, []):
+                res["writes"][session.cfg_key(kind, opts, args)] = session.write_digest(kind, opts, copy.deepcopy(cs), args)
     print(json.dumps(res))
 
 
